@@ -15,7 +15,7 @@ class C06(core.Check):
     PROPS = 'props/C06.v'
     MODEL_IMPORTS = ['gen.Gen_mbf', 'model.MBF']
     QUICK_CASES = 1400
-    THOROUGH_CASES = 40000
+    THOROUGH_CASES = 20000
     TRUSTED = ['idiom layer of translate/targets/gen_mbf.py + lib/MBFPrims.v (value buffers as byte lists; '
                'the for/zip/reversed loop of Float._abs_gt as lex_gt)',
                'hand glue in model/MBF.v: match_types + isinstance dispatch of gt/eq, from_bool, '
